@@ -6,6 +6,7 @@ package props
 
 import (
 	"fmt"
+	kcp "github.com/xtaci/kcp-go/v5"
 	"testing"
 
 	"pgregory.net/rapid"
@@ -191,4 +192,79 @@ func TestC12FEC(t *testing.T) {
 	rec.Exhaustive = true
 	rec.Class("fec_position_pairs", evals)
 	rec.Sample(map[string]any{"d": 2, "p": 1, "order": []int{2, 0}, "bases": c07Bases(3)})
+}
+
+// TestC12SessionFECWrap: real sessions whose FEC encoders are positioned a few
+// groups before their wrap value (decoders seeked consistently): the ids wrap
+// in mid-transfer. C01's content oracle, the independent wire decoder (ids
+// continue modulo the wrap value, types match positions, parity is RS of the
+// group) and actual FEC recoveries must be undisturbed.
+func TestC12SessionFECWrap(t *testing.T) {
+	rec := hx.NewRecorder(t)
+	rapid.Check(t, func(rt *rapid.T) {
+		cfg := drawPairCfg(rt, pairGenOpts{FECMode: 1, ForceDialed: true})
+		fs := sim.DrawFateScript(rt, sim.FateOpts{MaxExplicit: 10, MaxRegimes: 3, MaxRegLen: 150, MaxDelay: 500, MaxLossPm: 250})
+		app := drawSessApps(rt, pairMSS(cfg), 25, 100_000)
+		groupsBefore := [2]int{rapid.IntRange(0, 6).Draw(rt, "groupsBeforeWrapA"), rapid.IntRange(0, 6).Draw(rt, "groupsBeforeWrapB")}
+		var obs [2]*wireObserver
+		var d snmpDelta
+		wrapped := [2]bool{}
+		rapid.SyncTest(rt, func(rt *rapid.T) {
+			before := kcp.DefaultSnmp.Copy()
+			s := sim.NewSessSim(rapid.SampledFrom([]uint32{0, 0xffffff00, 0x7fffff00}).Draw(rt, "clock"), cfg.EntropySeed)
+			p, err := sim.NewPair(s, cfg, app)
+			if err != nil {
+				rt.Fatalf("setup: %v", err)
+			}
+			defer p.Finish(nil)
+			setPairLinks(s, p, fs)
+			for e := 0; e < 2; e++ {
+				n := uint32(cfg.FEC[e][0] + cfg.FEC[e][1])
+				next := pawsOf(int(n)) - n*uint32(groupsBefore[e])
+				p.Sess[e].VerifSetFECNext(next)
+				p.Sess[1-e].VerifSeekFECDecoder(next % pawsOf(int(n)))
+				obs[e] = newWireObserver(p.Crypto, cfg.FEC[e], cfg.Conv, cfg.StreamID[e], cfg.Opts[e].Stream)
+			}
+			s.OnSent = func(dg *sim.Sent, from, to string, f *sim.Fate) error {
+				e := 0
+				if from == p.Addr[1].String() {
+					e = 1
+				}
+				if err := obs[e].Observe(dg.Data); err != nil {
+					return err
+				}
+				if k := len(obs[e].FECIDs); k >= 2 && obs[e].FECIDs[k-1] < obs[e].FECIDs[k-2] {
+					wrapped[e] = true
+				}
+				return nil
+			}
+			p.OnRead = func(r, n int, err error) {
+				// the decoder keeps only the few most recent groups, also across the wrap
+				for e := 0; e < 2; e++ {
+					if err := sessionLimits(p.Sess[e]); err != nil {
+						s.Fail("end %d after the FEC ids wrapped=%v: %v", e, wrapped, err)
+					}
+				}
+			}
+			err = p.Run(fs.EndTime()+600_000, false)
+			d = snmpSince(before)
+			if err != nil {
+				rt.Fatalf("C12 (session, FEC ids wrapping): %v\ncase: %+v groups before wrap %v", err, describePair(cfg, fs, app), groupsBefore)
+			}
+		})
+		cl := []string{}
+		if wrapped[0] || wrapped[1] {
+			cl = append(cl, "fec_id_wrapped_mid_transfer")
+		}
+		if d.FECRecovered > 0 {
+			cl = append(cl, "fec_recovery_used")
+		}
+		rec.Case(hx.Hash64(describePair(cfg, fs, app), groupsBefore), (wrapped[0] || wrapped[1]) && d.FECRecovered > 0, cl...)
+		if rec.WantSample() {
+			dd := describePair(cfg, fs, app)
+			dd["groups_before_wrap"] = groupsBefore
+			dd["fec_recovered"] = d.FECRecovered
+			rec.Sample(dd)
+		}
+	})
 }
